@@ -1432,8 +1432,36 @@ fn pretty_scalar(n: Number) -> Markup {
     m::value(n.pretty_print())
 }
 
+/// Is this a call that is printed in its temperature sugar form (`x °C`, `x -> °F`)? Unlike
+/// `f(x)`, that form is not atomic.
+fn is_temperature_sugar(expr: &Expression) -> bool {
+    const FROM: [&str; 2] = ["from_celsius", "from_fahrenheit"];
+    const TO: [&str; 6] = [
+        "°C",
+        "celsius",
+        "degree_celsius",
+        "°F",
+        "fahrenheit",
+        "degree_fahrenheit",
+    ];
+
+    match expr {
+        Expression::FunctionCall { name, args, .. } => {
+            args.len() == 1 && (FROM.contains(name) || TO.contains(name))
+        }
+        Expression::CallableCall { callable, args, .. } => {
+            args.len() == 1
+                && matches!(callable.as_ref(), Expression::Identifier { name, .. } if TO.contains(name))
+        }
+        _ => false,
+    }
+}
+
 fn with_parens(expr: &Expression) -> Markup {
     match expr {
+        expr if is_temperature_sugar(expr) => {
+            m::operator("(") + expr.pretty_print() + m::operator(")")
+        }
         Expression::Scalar { .. }
         | Expression::Identifier { .. }
         | Expression::UnitIdentifier { .. }
